@@ -524,6 +524,11 @@ def run(prop, tier, seed, config='tsan'):
     metapath = os.path.join(os.path.dirname(exe), 'src', 'shapes.json')
     per = cfg['trials'] // cfg['nchunks']
     tasks = [(exe, metapath, seed, c, per, cfg) for c in range(cfg['nchunks'])]
+    # pair stress: very many tiny two-thread trials (1-3 operations each plus the shared-object scenarios), so that
+    # narrow windows between two specific operations are hit by timing jitter; TSan + conservation only
+    pcfg = dict(cfg, threads=[2, 2, 3], tiny=True, lin=False, delays=True)
+    npair = cfg['trials'] * (4 if tier == 'quick' else 6)
+    tasks += [(exe, metapath, seed + 1000003, 1000 + c, npair // cfg['nchunks'], pcfg) for c in range(cfg['nchunks'])]
     tot = dict(trials=0, ops=0, races={}, threads_hist={}, lin=dict(checked=0, ok=0, budget=0, nodes=0), calls=0, accepted=0, reports=0, concurrent_pairs=0)
     inter = set()
     samples = []
@@ -553,7 +558,7 @@ def run(prop, tier, seed, config='tsan'):
         v.inconclusive += sinc
     except build.BuildError as ex:
         v.inconclusive.append('scheduling-mutex configuration does not build: %s' % str(ex)[-1200:])
-    if tot['trials'] < cfg['trials'] * 0.9:
+    if tot['trials'] < (cfg['trials'] + npair) * 0.9:
         v.inconclusive.append('only %d of %d trials completed' % (tot['trials'], cfg['trials']))
     if tot['lin']['checked'] and tot['lin']['budget'] > 0.2 * tot['lin']['checked']:
         v.inconclusive.append('linearizability search exceeded its budget on %d of %d histories' % (tot['lin']['budget'], tot['lin']['checked']))
@@ -563,7 +568,7 @@ def run(prop, tier, seed, config='tsan'):
         samples=samples[:2], operations=tot['ops'], trials_by_thread_count=tot['threads_hist'],
         calls=tot['calls'], calls_accepted=tot['accepted'], reports_observed=tot['reports'],
         overlapping_operation_pairs_observed=tot['concurrent_pairs'],
-        tsan_distinct_reports=len(tot['races']), linearizability=tot['lin'], config=config,
+        tsan_distinct_reports=len(tot['races']), linearizability=tot['lin'], config=config, pair_stress_trials=npair,
         systematic_lock_order_enumeration=systematic)
     v.assumptions = ['ThreadSanitizer sees only the executions that ran and only synchronisation it intercepts',
                      'sequential reference model vlib/model.py; creation of a sequenced expectation is a compound operation (register / set bounds / become callable)']
